@@ -95,13 +95,108 @@ def gen(rng, tier):
                                                 "wrap": wc, "expand": expand, "freq": freq, "gf": gf, "weight": weight, "sig": sig,
                                                 "hw": 0.0 if use_sig else hw, "tkb": btemp * KB, "history": hist, "it0": it0},
                       "nontrivial": nsteps > 2 * freq})
+    return cases + gen_rebin(rng, tier)
+
+
+def gen_rebin(rng, tier):
+    """a state with kept hills read by a bias set up over a narrower grid (rebinGrids on): the bias is still the sum of all hills, at
+    bin centres of the NEW grid inside it and analytically outside it"""
+    import os, cvbuild
+    work = os.path.join(cvbuild.CACHE, "c05-scratch"); os.makedirs(work, exist_ok=True)
+    cases = []
+    for k in range(6 if tier == "quick" else 60):
+        w = rng.choice([0.25, 0.5]); hw = rng.choice([1.0, 2.0]); freq = rng.randint(1, 3); weight = rng.choice([0.2, 0.5])
+        nb = rng.randint(24, 32); lo = rng.dyadic(-4, -2, 1); hi = lo + nb * w
+        cut_lo = rng.randint(3 * int(hw) + 3, 3 * int(hw) + 6) if k % 3 != 2 else 0       # the new grid is narrower on one or both sides
+        cut_hi = rng.randint(3 * int(hw) + 3, 3 * int(hw) + 6) if k % 3 != 1 else 0
+        lo2, hi2 = lo + cut_lo * w, hi - cut_hi * w
+        def mconf(rebin):
+            return ("metadynamics {\n name mt\n colvars x0\n hillWeight %s\n newHillFrequency %d\n hillWidth %s\n keepHills on\n%s}\n"
+                    % (num(weight), freq, num(hw), " rebinGrids on\n" if rebin else ""))
+        pfx = os.path.join(work, "rb%d" % k)
+        lines = ["m.new 1", "M.noclock", cfg(inj_cv("x0", 0, lo, hi, w)), cfg(mconf(False))]
+        hist = []
+        # run 1: hills all over the old grid, many of them near the future boundaries
+        n1 = rng.randint(12, 20) * freq
+        for s_ in range(n1 + 1):
+            r = rng.rand()
+            if r < 0.4 and cut_lo:
+                x = lo2 + rng.uniform(-2.5, 2.5) * w
+            elif r < 0.8 and cut_hi:
+                x = hi2 + rng.uniform(-2.5, 2.5) * w
+            else:
+                x = rng.uniform(lo + w, hi - w)
+            lines += [pos(0, 0.0, 0.0, x), "m.step"]
+            hist.append({"x": x, "run": 1, "line": len(lines)})
+            lines += ["m.bias mt", "m.cv x0 fa"]
+        lines.append("m.save %s" % pfx)
+        lines += ["m.new 1", "M.noclock", cfg(inj_cv("x0", 0, lo2, hi2, w)), cfg(mconf(True)), "m.load %s" % pfx]
+        loadl = len(lines)
+        n2 = rng.randint(10, 18)
+        for s_ in range(n2 + 1):
+            r = rng.rand()
+            if s_ == 0:
+                x = hist[-1]["x"]             # the stop step, repeated
+            elif r < 0.35 and cut_lo:
+                x = lo2 - rng.uniform(0.05, 2.0) * w           # outside the new grid, next to hills of run 1
+            elif r < 0.7 and cut_hi:
+                x = hi2 + rng.uniform(0.05, 2.0) * w
+            else:
+                x = rng.uniform(lo2 + w, hi2 - w)
+            lines += [pos(0, 0.0, 0.0, x), "m.step"]
+            hist.append({"x": x, "run": 2, "line": len(lines), "first": s_ == 0})
+            lines += ["m.bias mt", "m.cv x0 fa"]
+        cases.append({"lines": lines, "meta": {"family": "rebin", "w": w, "hw": hw, "freq": freq, "weight": weight, "lo": lo, "hi": hi, "lo2": lo2, "hi2": hi2,
+                                               "history": hist, "load": loadl, "grids": True, "nd": 1, "wt": False, "keep": True, "period": [0.0], "expand": [False],
+                                               "sig": [w * hw / 2.0]}, "nontrivial": True})
     return cases
+
+
+def oracle_rebin(case, out):
+    m = case["meta"]; w = m["w"]; sig = w * m["hw"] / 2.0
+    rc = out.get((m["load"], "rc", 1))
+    if rc != ["i0"]:
+        return [(None, "a state with kept hills could not be read by a bias with rebinGrids on and a narrower grid")]
+    hills = []
+
+    def g(c, x):
+        s = ((x - c) / sig) ** 2
+        return 0.0 if s > 23.0 else math.exp(-0.5 * s)
+    it = 0; first = True; rel = 0
+    for h in m["history"]:
+        lo, hi = (m["lo"], m["hi"]) if h["run"] == 1 else (m["lo2"], m["hi2"])
+        if first:
+            first = False
+        elif h.get("first"):
+            rel = 0                         # the stop step repeated as step 0 of the new run: no deposition
+        else:
+            it += 1; rel += 1
+        x = h["x"]
+        if rel > 0 and it % m["freq"] == 0:
+            hills.append(x)
+        nb = int(math.floor((hi - lo) / w + 0.5)); b = int(math.floor((x - lo) / w))
+        inside = 0 <= b < nb
+        xe = lo + w * (b + 0.5) if inside else x
+        e_exp = sum(m["weight"] * g(c, xe) for c in hills)
+        f_exp = sum(m["weight"] * g(c, xe) * (xe - c) / sig ** 2 for c in hills)
+        e = vals(out, h["line"] + 1, "e"); fa = vals(out, h["line"] + 2, "fa")
+        if e is None or fa is None:
+            return [(None, "no energy / force reported at step %d" % it)]
+        scale = max(1e-3, m["weight"] * len(hills))
+        where = "%s the %s grid [%r, %r)" % ("inside" if inside else "outside", "old" if h["run"] == 1 else "new, narrower", lo, hi)
+        if abs(e[0] - e_exp) > 2e-5 * scale:
+            return [(None, "step %d, run %d (%s, kept hills rebinned after the restart): metadynamics energy %r, the sum of all %d hills gives %r" % (it, h["run"], where, e[0], len(hills), e_exp))]
+        if abs(fa[0] - f_exp) > 2e-5 * scale / sig + 1e-9:
+            return [(None, "step %d, run %d (%s, kept hills rebinned after the restart): metadynamics force %r, minus the gradient of the sum of all %d hills gives %r" % (it, h["run"], where, fa[0], len(hills), f_exp))]
+    return []
 
 
 def distribution(cases):
     d = {"nd": {}, "first_step_nonzero": sum(1 for c in cases if c["meta"].get("it0")), "grids": 0, "wt": 0, "keepHills": 0, "periodic": 0, "expand": 0, "gaussianSigmas": 0, "steps": 0, "offgrid_steps": 0}
     for c in cases:
         m = c["meta"]
+        if m.get("family") == "rebin":
+            d["rebin"] = d.get("rebin", 0) + 1; d["steps"] += len(m["history"]); continue
         if "nd" not in m:
             continue
         d["nd"][m["nd"]] = d["nd"].get(m["nd"], 0) + 1
@@ -122,6 +217,8 @@ def oracle(case, out):
     """analytic sum of the hills deposited on schedule; with grids, tabulated hills contribute their analytic value at the
     centre of the current bin, untabulated ones at the position, and outside the grid all hills analytically"""
     m = case["meta"]; viol = []
+    if m.get("family") == "rebin":
+        return oracle_rebin(case, out)
     nd = m["nd"]
     lo = list(m["lo"]); w = m["w"]
     nx = [int(math.floor((m["hi"][i] - lo[i]) / w[i] + 0.5)) for i in range(nd)]
